@@ -80,7 +80,7 @@ def standard_cases(ctx, prop):
     sm = small_cases(n)
     ctx.count("exhaustive-small", len(sm))
     cases += sm
-    rnd = random_cases(rng, 40000 if ctx.thorough() else 2000)
+    rnd = random_cases(rng, 20000 if ctx.thorough() else 2000)
     ctx.count("random", len(rnd))
     cases += rnd
     wl = word_loop_cases(rng, 400 if ctx.thorough() else 60)
